@@ -311,6 +311,9 @@ def run(ctx):
                         continue
                     if step == "set":
                         v = pick_unit(rng, 0.2) if role != "phi" else pick_phase(rng)
+                        if role != "phi" and rng.random() < 0.1:
+                            v = float(rng.choice([5e-9, 1e-9, 3e-10, 1e-8, 1 - 5e-9]))    # tiny but not nothing: sqrt(5e-9) = 7e-5
+                            ctx.bucket("tiny_nonzero_loss_or_reflectivity")
                         if p.min_bound is not None:
                             v = max(v, p.min_bound)
                         if p.max_bound is not None:
@@ -335,7 +338,7 @@ def run(ctx):
                         else:
                             v = pick_unit(rng)
                     else:   # a value its component cannot take
-                        v = float(rng.choice([1.5, -0.2, 1 + 1e-9])) if role != "phi" else "abc"
+                        v = float(rng.choice([1.5, -0.2, 1 + 1e-9, -5e-9, -1e-12])) if role != "phi" else "abc"
                     via_dict = False
                     for kk in pdict.keys():
                         if pdict[kk] is p and rng.random() < 0.5:
